@@ -309,10 +309,16 @@ pub mod time {
     }
 
     /// A wrapper around [`parse_duration`] that converts errors into [`ExecutionError`].
-    /// and only returns the duration, rather than returning the remaining input.
+    /// and only returns the duration; input left over after the last term is an error.
     fn _duration(i: &str) -> Result<chrono::Duration> {
-        let (_, duration) = crate::duration::parse_duration(i)
+        let (rest, duration) = crate::duration::parse_duration(i)
             .map_err(|e| ExecutionError::function_error("duration", e.to_string()))?;
+        if !rest.is_empty() {
+            return Err(ExecutionError::function_error(
+                "duration",
+                format!("unexpected trailing input '{rest}'"),
+            ));
+        }
         Ok(duration)
     }
 
